@@ -150,18 +150,20 @@ def jdump(v):
         return repr(v)
 
 
-def jsonable(v, depth=0):
-    """Convert a possibly non-JSON Python value into something json.dump accepts."""
+def jsonable(v, depth=0, _path=()):
+    """Convert a possibly non-JSON Python value into something json.dump accepts (cycles and absurd depth are cut)."""
     if v is None or isinstance(v, (bool, int, float, str)):
         return v
-    if depth > 12:
-        return "<deeper: cyclic or too deep to print>"
+    if id(v) in _path:
+        return "<cyclic>"
+    if depth > 60:
+        return "<deeper: too deep to print>"
     if isinstance(v, (list, tuple)):
-        return [jsonable(x, depth + 1) for x in v]
+        return [jsonable(x, depth + 1, _path + (id(v),)) for x in v]
     if isinstance(v, dict):
         out = {}
         for k, x in v.items():
-            out[k if isinstance(k, str) else "<non-str key %r>" % (k,)] = jsonable(x, depth + 1)
+            out[k if isinstance(k, str) else "<non-str key %r>" % (k,)] = jsonable(x, depth + 1, _path + (id(v),))
         return out
     return "<%s %r>" % (type(v).__name__, v)
 
